@@ -325,6 +325,33 @@ fn ncmp(aa: &Obj, bb: &Obj) -> NRes<Ordering> {
     }
 }
 
+// Repetition by a caller-supplied count: reserve fallibly, so that an absurd count is an ordinary
+// error instead of a "capacity overflow" panic or an allocation-failure abort.
+fn try_repeat_string(s: &str, n: usize) -> NRes<String> {
+    let total = s
+        .len()
+        .checked_mul(n)
+        .ok_or_else(|| NErr::value_error("repeat: result too large".to_string()))?;
+    let mut out = String::new();
+    if total == 0 {
+        return Ok(out);
+    }
+    out.try_reserve_exact(total)
+        .map_err(|e| NErr::value_error(format!("repeat: can't allocate: {}", e)))?;
+    for _ in 0..n {
+        out.push_str(s);
+    }
+    Ok(out)
+}
+
+fn try_repeat_vec<T: Clone>(x: T, n: usize) -> NRes<Vec<T>> {
+    let mut out = Vec::new();
+    out.try_reserve_exact(n)
+        .map_err(|e| NErr::value_error(format!("repeat: can't allocate: {}", e)))?;
+    out.resize(n, x);
+    Ok(out)
+}
+
 fn clone_and_part_app_2(f: &(impl Builtin + Clone + 'static), arg: Obj) -> Obj {
     Obj::Func(
         Func::PartialApp2(Box::new(Func::Builtin(Rc::new(f.clone()))), Box::new(arg)),
@@ -4565,17 +4592,19 @@ pub fn initialize(env: &mut Env) {
     env.insert_builtin(TwoArgBuiltin {
         name: "*$".to_string(),
         body: |a, b| {
-            Ok(Obj::from(
-                format!("{}", b).repeat(obj_clamp_to_usize_ok(&a)?),
-            ))
+            Ok(Obj::from(try_repeat_string(
+                &format!("{}", b),
+                obj_clamp_to_usize_ok(&a)?,
+            )?))
         },
     });
     env.insert_builtin(TwoArgBuiltin {
         name: "$*".to_string(),
         body: |a, b| {
-            Ok(Obj::from(
-                format!("{}", a).repeat(obj_clamp_to_usize_ok(&b)?),
-            ))
+            Ok(Obj::from(try_repeat_string(
+                &format!("{}", a),
+                obj_clamp_to_usize_ok(&b)?,
+            )?))
         },
     });
     env.insert_builtin(OneArgBuiltin {
@@ -4824,11 +4853,11 @@ pub fn initialize(env: &mut Env) {
     });
     env.insert_builtin(TwoArgBuiltin {
         name: "*.".to_string(),
-        body: |a, b| Ok(Obj::list(vec![b; obj_clamp_to_usize_ok(&a)?])),
+        body: |a, b| Ok(Obj::list(try_repeat_vec(b, obj_clamp_to_usize_ok(&a)?)?)),
     });
     env.insert_builtin(TwoArgBuiltin {
         name: ".*".to_string(),
-        body: |a, b| Ok(Obj::list(vec![a; obj_clamp_to_usize_ok(&b)?])),
+        body: |a, b| Ok(Obj::list(try_repeat_vec(a, obj_clamp_to_usize_ok(&b)?)?)),
     });
     env.insert_builtin_with_alias(CartesianProduct, "×");
     env.insert_builtin(TwoArgBuiltin {
@@ -4846,7 +4875,7 @@ pub fn initialize(env: &mut Env) {
                         if empty {
                             None
                         } else {
-                            Some(Rc::new(vec![0; u]))
+                            Some(Rc::new(try_repeat_vec(0, u)?))
                         },
                     )))))
                 }
